@@ -13,6 +13,11 @@ CHECKS = {
             "Generated typed requests of all seven operations (arbitrary byte strings, message IDs up to 2^31-1, go-ldap-round-trippable filters from a recursive grammar, 0..4 attributes/changes/values, 0..4 controls of every kind) are encoded by the harness's own codec, sent pipelined to a live server whose every route records a deep copy of what Get*Message returns, and compared field by field (filter semantically via go-ldap CompileFilter); unsupported operations and bind versions != 3 must reach no handler. Exploration: strong on swapped/dropped/truncated fields, cannot show absence.",
             "trusts the independent encoder (wire) to produce what the typed value says (cross-checked by go-ldap for filters) and go-ldap's CompileFilter for filter equivalence; VerifMessageInfo hook is used to read the extended-operation name/message ID which the public API does not expose",
             "DESIGN.md §4 C01"),
+    "C03": ("exploration",
+            "model-based testing: exhaustive enumeration of small route tables x all requests (k<=1 quick, k<=2 thorough) plus rapid-generated tables up to 8 routes, against a reference model of first-match routing",
+            "Every route table with up to 2 routes over the alphabet (55 route kinds incl. case variants and all scopes; default route absent/present/registered twice) is crossed with all 59 requests on a live server; per request the handler-invocation log (complete once OnClose fired) must contain exactly the handler the reference model names and the client must get exactly one response; the built-in refusal must carry code 53, the request's message ID and the response tag of the request's operation, and the go-ldap client call must return 53 instead of timing out. Exhaustive up to the bound, random beyond.",
+            "trusts the reference model written from the statement; relies on OnClose-after-handlers (C08) to know the invocation log is complete",
+            "DESIGN.md §4 C03"),
     "C04": ("exploration",
             "property-based testing (rapid): response programs (constructor x documented options x setter sequences) executed in real handlers, frames parsed by an independent strict BER/LDAP parser and compared with a last-value-wins model; go-ldap as second reader",
             "Every generated response program is executed inside a handler on a real pipelined request with a random message ID; each frame received is parsed strictly by the harness's own codec and compared with the model (message ID, protocolOp tag, result code, matched DN, diagnostic message, entry DN, attributes in AddAttribute order / WithAttributes as a set, controls), and re-read by go-ldap's GetLDAPError / DecodeControl. Exploration over a large generated space; no absence claim.",
